@@ -3,6 +3,7 @@
    model (mismatch:...) and judged by the validators of Spec/LockSpec.v (viol:...). *)
 From Apko Require Export Base.Prelude Base.Regex Base.C12Lib Model.Version Model.Lock Spec.LockSpec
   Generated.C09Lock.
+From Apko Require Model.Resolver.
 Open Scope string_scope. Open Scope list_scope.
 
 (* ---- stage "unify": unify through the verif hook ----------------------------- *)
@@ -177,11 +178,27 @@ Definition member_excluded_by_member (ps : list opkg) : bool :=
                                       | _ => false
                                       end) (q_deps q)) ps.
 
+(* C09-F7: a member q' provides the NAME of another member q at another version (or without one): the
+   exact entry name(q)=version(q) makes `constrain` disqualify q' (its provide does not satisfy the entry;
+   an unversioned provide is a parse error there), and the entry of q' then has no candidate *)
+Definition member_disqualified_by_entry (ps : list opkg) : bool :=
+  existsb (fun q =>
+    existsb (fun q' =>
+      negb (String.eqb (p_name (q_pkg q')) (p_name (q_pkg q))) &&
+      existsb (fun prov =>
+        let pc := resolve_constraint prov in
+        String.eqb (c_name pc) (p_name (q_pkg q)) &&
+        negb (match c_version pc with
+              | EmptyString => false
+              | pv => version_ok (resolve_constraint (p_name (q_pkg q) ++ "=" ++ p_version (q_pkg q))) pv
+              end)) (p_provides (q_pkg q'))) ps) ps.
+
 Definition relock_failure_tag (what : string) (U : list cand) (ps : list opkg) (lockl : list string) : string :=
   if unpinned_tagged ps lockl then "viol:fixpoint/unpinned-entry-for-package-from-tagged-repo"
   else if negb (closed_b ps) then "viol:fixpoint/origin-resolution-not-closed"
   else if entry_admits_other U ps then "viol:fixpoint/entry-admits-other-package"
   else if member_excluded_by_member ps then "viol:fixpoint/member-excluded-by-conflict-entry-of-member"
+  else if member_disqualified_by_entry ps then "viol:fixpoint/entry-disqualifies-member-providing-its-name"
   else "viol:" ++ what.
 
 Definition judge_relock (univ : list (string * list cand)) (res : list (string * list opkg)) (locks : bymap)
@@ -195,6 +212,40 @@ Definition judge_relock (univ : list (string * list cand)) (res : list (string *
         | None => [relock_failure_tag "relock-fails" (match alookup arch univ with Some u => u | None => [] end) ps (pget arch locks)]
         | Some l => if same_members_b l (nv_of ps) then []
                     else [relock_failure_tag "relock-differs" (match alookup arch univ with Some u => u | None => [] end) ps (pget arch locks)]
+        end
+    end) relock).
+
+(* the resolver MODEL (Model/Resolver.v, the one c09_fixpoint_resolver_partial is about) on what the
+   implementation was asked when a per-architecture lock was resolved again: that architecture's universe,
+   no cross-architecture disqualification (a single-architecture configuration), the lock list as world.
+   Compared as sets of (name, version), or error with error.  synthrepo packages: origin = name,
+   provider priority 0, no install_if; the tagged repository is the second index. *)
+Definition rpkg_of_cand (k : cand) : Resolver.pkg :=
+  {| Resolver.p_name := k_name k; Resolver.p_version := k_version k; Resolver.p_origin := k_name k;
+     Resolver.p_deps := k_deps k; Resolver.p_provides := k_provides k; Resolver.p_install_if := [];
+     Resolver.p_prio := 0%N; Resolver.p_pin := k_pinned k;
+     Resolver.p_repo := if String.eqb (k_pinned k) "" then "repo-main" else "repo-tagged" |}.
+Definition model_relock (U : list cand) (L : list string) : option (option (list (string * string))) :=
+  let RU := List.filter (fun p => String.eqb (Resolver.p_pin p) "") (List.map rpkg_of_cand U) ++
+            List.filter (fun p => negb (String.eqb (Resolver.p_pin p) "")) (List.map rpkg_of_cand U) in
+  match Resolver.resolve RU L [] [] with
+  | Ok l => Some (Some (List.map (fun j => let p := nth j RU Resolver.dummy_pkg in (Resolver.p_name p, Resolver.p_version p)) l))
+  | Err => Some None
+  | Panic | OutOfFuel => None
+  end.
+Definition check_relock_model (univ : list (string * list cand)) (locks : bymap)
+    (relock : list (string * option (list (string * string)))) : list string :=
+  List.concat (List.map (fun ar =>
+    let '(arch, r) := ar in
+    match alookup arch univ with
+    | None => []
+    | Some U =>
+        match model_relock U (pget arch locks), r with
+        | Some (Some m), Some l => tag_if (negb (same_members_b m l)) "mismatch:relock-resolver-model-differs"
+        | Some None, None => []
+        | Some None, Some _ => ["mismatch:relock-model-error-impl-ok"]
+        | Some (Some _), None => ["mismatch:relock-model-ok-impl-error"]
+        | None, _ => ["mismatch:relock-model-panic-or-out-of-fuel"]
         end
     end) relock).
 
@@ -238,6 +289,7 @@ Definition check_api (c : api_case) : list string :=
       | Some (UOk bya mba as o) =>
           (if clean_originals_b (e_originals c) then judge_unify (e_originals c) inputs o else []) ++
           judge_relock (e_universe c) res bya (e_relock c) ++
+          check_relock_model (e_universe c) bya (e_relock c) ++
           judge_index_relock (e_universe c) res bya (e_index_relock c)
       | _ => []
       end
